@@ -4,7 +4,8 @@ from xsym.scenario import Scenario
 EXPLANATION = ('All keys collide in one bucket (3 slots + extension items). Sequential: after inserting 5 keys, one update whose key is a solver '
                'variable (erase / extract / emplace) followed by a lock-free lookup of a symbolic key, both compared with a reference map, and '
                'the map must stay usable (bucket lock released). Concurrent: a lock-free reader looks up a key that is present throughout while '
-               'a writer erases / extracts another key of the same bucket (array slot or extension item), all context switches symbolic.')
+               'a writer erases / extracts another key of the same bucket (array slot or extension item) and then inserts a new key that recycles the freed '
+               'item, all context switches symbolic (K=2, one scenario with K=3).')
 ASSUMPTIONS = ['trivial int keys/values, capacity 128, reclaimer = epoch based; no traversal and no grow (iteration over 128 buckets and non-trivial keys '
                'exceed the engine: DESIGN.md 10.2); 2 threads, K=2-3; SC only']
 TIMEOUT = {'quick': 900, 'thorough': 2400}
@@ -20,6 +21,10 @@ def scenarios(tier):
          Scenario('seq-emplace-symbolic-key', SEQ, ['RECL=5', 'UPD=4', 'NO_TRAVERSAL'], unwind=8, sym_loop_cap=400, cover=[1, 2])]
     for rk, wk in ((5, 4), (4, 5), (3, 1), (5, 2)):
         s.append(Scenario('mt-lookup%d-vs-erase%d-K2' % (rk, wk), MT, ['RECL=5', 'RK=%d' % rk, 'WK=%d' % wk], threads=2, K=2, unwind=6, unwind_map=UM, cover=[1, 2]))
+    for rk, wk in (((4, 5),) if tier == 'quick' else ((4, 5), (5, 4), (5, 2))):
+        s.append(Scenario('mt-lookup%d-vs-erase%d-then-emplace-K2' % (rk, wk), MT, ['RECL=5', 'RK=%d' % rk, 'WK=%d' % wk, 'W_THEN_EMPLACE'], threads=2, K=2, unwind=6,
+                          unwind_map=UM, cover=[1, 2]))
+    s.append(Scenario('mt-lookup4-vs-erase5-K3', MT, ['RECL=5', 'RK=4', 'WK=5'], threads=2, K=3, unwind=6, unwind_map=UM, cover=[1, 2]))
     if tier == 'thorough':
         for rk, wk in ((4, 5), (3, 1), (6, 5)):
             s.append(Scenario('mt-lookup%d-vs-extract%d-K3' % (rk, wk), MT, ['RECL=5', 'NKEYS=6', 'RK=%d' % rk, 'WK=%d' % wk, 'W_EXTRACT'], threads=2, K=3, unwind=6, unwind_map=UM, cover=[1, 2], allow_unwound=True))
